@@ -248,14 +248,14 @@ class Sym:
                     if k.arg == "signed":
                         signed = _constv(self, k.value, None)
                 return Lin.of_term(("int", self.term(e.args[0]), order, signed))
-            if isinstance(f, ast.Attribute) and f.attr == "to_bytes" and (e.args or e.keywords):
+            if isinstance(f, ast.Attribute) and f.attr == "to_bytes" and (e.args or e.keywords or not (isinstance(f.value, ast.Name) and f.value.id == "int")):
                 # x.to_bytes(n, byteorder, signed=...)  /  int.to_bytes(x, length=n, ...)
                 args = list(e.args)
                 if isinstance(f.value, ast.Name) and f.value.id == "int" and args:
                     val, args = args[0], args[1:]
                 else:
                     val = f.value
-                n = _constv(self, args[0], None) if args else None
+                n = _constv(self, args[0], None) if args else 1          # length defaults to 1, byteorder to 'big' (3.11+)
                 order = _constv(self, args[1], None) if len(args) > 1 else "big"
                 signed = False
                 for k in e.keywords:
